@@ -124,11 +124,12 @@ pub fn apply_layout(text: &[u8], ops: &[LayoutOp]) -> Vec<u8> {
     t
 }
 
-// The six ASCII whitespace characters of isspace(3) / POSIX [:space:] / Unicode White_Space. Vertical
-// tab is the one u8::is_ascii_whitespace (the WHATWG set) leaves out; "ignores whitespace anywhere"
-// is read as covering it (DESIGN.md §12.16), so a byte-level filter that forgets it is reported.
-const WS: [u8; 6] = [b' ', b'\t', b'\r', b'\n', 0x0c, 0x0b];
-const UNICODE_WS: [&str; 5] = ["\u{85}", "\u{a0}", "\u{2003}", "\u{2028}", "\u{3000}"];
+// form feed is ASCII whitespace for every definition in use (C isspace, char::is_whitespace,
+// u8::is_ascii_whitespace); vertical tab is not one for the last (the WHATWG set), and the statement
+// does not say which definition it means, so it goes with the open class: accepting and refusing
+// are both fine, the answer must not depend on delivery (conforming/conf-hex-ascii-whitespace)
+const WS: [u8; 5] = [b' ', b'\t', b'\r', b'\n', 0x0c];
+const UNICODE_WS: [&str; 6] = ["\u{85}", "\u{a0}", "\u{2003}", "\u{2028}", "\u{3000}", "\u{0b}"];
 
 pub fn gen_layout(rng: &mut Rng, text_len: usize) -> Vec<LayoutOp> {
     let mut ops = Vec::new();
@@ -813,7 +814,7 @@ impl crate::framework::Plan for HexPlan {
         vec![
             "stdin and input files are regular files delivered through the interposed read(2); pipes/ttys differ only in the short-read/EINTR behaviour that the plan simulates".into(),
             "hard write errors (EPIPE, ENOSPC) are not injected: the property says nothing about output failure".into(),
-            "the six ASCII whitespace characters (space, tab, LF, VT, FF, CR) must be ignored; non-ASCII whitespace is only held to delivery independence; 0X is not treated as the documented prefix".into(),
+            "ASCII whitespace space, tab, CR, LF, FF must be ignored; vertical tab and non-ASCII whitespace are only held to delivery independence; 0X is not treated as the documented prefix".into(),
             "the layout/case/prefix clauses are pure input properties: they are sampled by this workload, not decided by simulation".into(),
         ]
     }
